@@ -350,7 +350,7 @@ def chunk(w, mode, k=0):
 class C11(Suite):
     id = "C11"
     props_module = "Cpppo.Props.C11"
-    extra_modules = ["Cpppo.Proofs.Regex", "Cpppo.Proofs.Rx"]
+    extra_modules = ["Cpppo.Proofs.Regex", "Cpppo.Proofs.Rx", "Cpppo.Proofs.Bisim"]
     rule = ("all expression trees up to a size bound over {a,b} (literals, classes, negated classes, '.', "
             "'|', grouping, '*', '+', '?', '{m,n}') x all strings over {a,b} up to a length bound, each also "
             "with an unnamed follower symbol; kind (regex/regex_bytes/string/string_bytes), greedy flag, own "
@@ -552,7 +552,8 @@ class C11(Suite):
             k += 1
             tree = self.random_tree(rng, rng.randint(3, 9), [A, B, C, ord("0"), ord(",")])
             if rng.random() < 0.3:
-                yield {"op": "lang", "rx": tree, "bound": 4}
+                # random, larger expressions: a certificate is accepted, the bounded comparison suffices
+                yield {"op": "lang", "rx": tree, "bound": 4, "exact": 0}
             for _ in range(4):
                 k += 1
                 w = self.random_word(rng, tree)
@@ -753,7 +754,9 @@ class C11(Suite):
             return "rx.run %d %s %d %s %s" % (1 if c["kind"].endswith("bytes") else 0, self.fixed, c["term"],
                                               self.fsm_text(c["rx"]), txt)
         if c["op"] == "lang":
-            return "rx.lang %s %s %d" % (self.fsm_text(c["rx"]), ",".join(rx_tokens(c["rx"])), c["bound"])
+            # exact=1: the answer is `ok` only with a bisimulation certificate (exact language equality)
+            return "rx.lang %s %s %d %d" % (self.fsm_text(c["rx"]), ",".join(rx_tokens(c["rx"])), c["bound"],
+                                            c.get("exact", 1))
         if c["op"] == "spec":
             return "rx.spec %s %s" % (",".join(rx_tokens(c["rx"])), ",".join(map(str, c["w"])) or "-")
         if c["op"] == "utf8":
